@@ -40,6 +40,16 @@ func main() {
 	repl := map[string]string{}
 	counts := map[string]int{}
 	total := map[string]int{}
+	if envFiles, _ := filepath.Glob(filepath.Join(*repo, "env", "*.go")); true {
+		for _, f := range envFiles {
+			if strings.HasSuffix(f, "_test.go") {
+				continue
+			}
+			if af, err := parser.ParseFile(token.NewFileSet(), f, nil, 0); err == nil {
+				collectEnvFields(af)
+			}
+		}
+	}
 	for _, pkg := range []string{"vm", "env", "parser"} {
 		files, _ := filepath.Glob(filepath.Join(*repo, pkg, "*.go"))
 		for _, f := range files {
@@ -254,6 +264,29 @@ func rewriteVM(fset *token.FileSet, af *ast.File, total map[string]int) int {
 	return n
 }
 
+// envFields: the field names of type Env other than the mutex and the two
+// guarded maps (collected from the current tree before rewriting).
+var envFields = map[string]bool{}
+
+func collectEnvFields(af *ast.File) {
+	ast.Inspect(af, func(nd ast.Node) bool {
+		ts, ok := nd.(*ast.TypeSpec)
+		if !ok || ts.Name.Name != "Env" {
+			return true
+		}
+		if st, ok := ts.Type.(*ast.StructType); ok {
+			for _, f := range st.Fields.List {
+				for _, nm := range f.Names {
+					if nm.Name != "rwMutex" && nm.Name != "values" && nm.Name != "types" {
+						envFields[nm.Name] = true
+					}
+				}
+			}
+		}
+		return false
+	})
+}
+
 func rewriteEnv(fset *token.FileSet, af *ast.File, total map[string]int) int {
 	n := 0
 	for _, im := range af.Imports {
@@ -277,6 +310,7 @@ func rewriteEnv(fset *token.FileSet, af *ast.File, total map[string]int) int {
 		x     ast.Expr
 		write bool
 		pos   token.Pos
+		field string // "" for the guarded maps
 	}
 	mentions := func(st ast.Stmt) []acc {
 		var res []acc
@@ -331,7 +365,11 @@ func rewriteEnv(fset *token.FileSet, af *ast.File, total map[string]int) int {
 					}
 				}
 				if se, ok := nd.(*ast.SelectorExpr); ok && (se.Sel.Name == "values" || se.Sel.Name == "types") {
-					res = append(res, acc{se.X, writes[se], se.Pos()})
+					res = append(res, acc{se.X, writes[se], se.Pos(), ""})
+				} else if ok && envFields[se.Sel.Name] {
+					if _, isCall := se.X.(*ast.CallExpr); !isCall {
+						res = append(res, acc{se.X, writes[se], se.Pos(), se.Sel.Name})
+					}
 				}
 				return true
 			})
@@ -349,6 +387,20 @@ func rewriteEnv(fset *token.FileSet, af *ast.File, total map[string]int) int {
 				}
 				p := fset.Position(a.pos)
 				site := fmt.Sprintf("env/%s:%d", filepath.Base(p.Filename), p.Line)
+				if a.field != "" {
+					outl = append(outl, &ast.ExprStmt{X: &ast.CallExpr{
+						Fun: vh("AccessField"),
+						Args: []ast.Expr{
+							&ast.UnaryExpr{Op: token.AND, X: &ast.SelectorExpr{X: a.x, Sel: ast.NewIdent("rwMutex")}},
+							&ast.BasicLit{Kind: token.STRING, Value: strconv.Quote(a.field)},
+							ast.NewIdent(w),
+							&ast.BasicLit{Kind: token.STRING, Value: strconv.Quote(site)},
+						},
+					}})
+					n++
+					total["env.fieldaccess"]++
+					continue
+				}
 				outl = append(outl, &ast.ExprStmt{X: &ast.CallExpr{
 					Fun: vh("Access"),
 					Args: []ast.Expr{
